@@ -199,6 +199,7 @@ def check_cases(ctx, cases):
     for ci, case in enumerate(cases):
         rev = build(case)
         man = git_objects.revision_git_object(rev)
+        gitfmt.dict_form_agrees(ctx, case, git_objects.revision_git_object, rev, man)
         impls.append((man, rev.id))
         ctx.case(case, nontrivial=bool(case["author"] or case["committer"] or case["parents"] or case["extra"]))
         ctx.count("presence=%s%s%s%s" % ("A" if case["author"] is not None else "-", "d" if case["date"] else "-", "C" if case["committer"] is not None else "-", "d" if case["committer_date"] else "-"))
